@@ -12,6 +12,8 @@ import (
 	"testing"
 	"time"
 
+	"github.com/ethereum/go-ethereum/core/rawdb"
+	"github.com/ethereum/go-ethereum/ethdb"
 	"github.com/ethereum/go-ethereum/triedb/pathdb"
 )
 
@@ -52,4 +54,93 @@ func TestLyingDescPopPanics(t *testing.T) {
 		}
 	}()
 	t.Logf("pop returned: %v", w.Pop(9))
+}
+
+// two blocks A (full) and B (short): ids 1000, 2000, ... with 2-byte deltas; A.max < B.min.
+func twoBlocks(t *testing.T) (ethdb.Database, []uint64, uint64, uint64) {
+	db := rawdb.NewMemoryDatabase()
+	w, _ := pathdb.VerifC19NewIndexWriter(db, addr, 0, 0)
+	var all []uint64
+	for i := 1; ; i++ {
+		id := uint64(i) * 1000
+		if err := w.Append(id, nil); err != nil {
+			t.Fatal(err)
+		}
+		all = append(all, id)
+		b := db.NewBatch()
+		w.Finish(b)
+		b.Write()
+		if _, _, order := dumpDB(db); len(order) == 2 && i%7 == 0 {
+			break
+		}
+		w, _ = pathdb.VerifC19NewIndexWriter(db, addr, math.MaxUint64, 0)
+	}
+	meta, _, _ := dumpDB(db)
+	descs, _ := pathdb.VerifC19ParseIndex(meta, 0)
+	if len(descs) != 2 {
+		t.Fatalf("expected 2 blocks, got %d", len(descs))
+	}
+	aMax := descs[0].Max
+	bMin := aMax + 1000
+	t.Logf("blocks: A max=%d entries=%d | B min=%d max=%d entries=%d", aMax, descs[0].Entries, bMin, descs[1].Max, descs[1].Entries)
+	return db, all, aMax, bMin
+}
+
+// Finding 2a: newIndexWriter with a limit strictly between A.max and B.min
+func TestLimitBetweenBlocksWriter(t *testing.T) {
+	db, _, aMax, _ := twoBlocks(t)
+	limit := aMax + 5
+	w, err := pathdb.VerifC19NewIndexWriter(db, addr, limit, 0)
+	if err != nil {
+		t.Fatal(err)
+	}
+	t.Logf("writer opened with limit %d: lastID=%d (A.max=%d)", limit, w.LastID(), aMax)
+	err = w.Append(500, nil) // far below A.max: must be refused by a sorted set
+	t.Logf("append(500) -> %v", err)
+	b := db.NewBatch()
+	w.Finish(b)
+	b.Write()
+	el, derr := dbElems(db)
+	t.Logf("stored index after finish: %d elements, err=%v, strictly sorted=%v", len(el), derr, strictlySorted(el))
+	if err == nil {
+		t.Errorf("append(500) accepted although %d is stored", aMax)
+	}
+}
+
+// Finding 2b: newIndexDeleter with a limit strictly between A.max and B.min
+func TestLimitBetweenBlocksDeleter(t *testing.T) {
+	db, _, aMax, _ := twoBlocks(t)
+	limit := aMax + 5
+	d, err := pathdb.VerifC19NewIndexDeleter(db, addr, limit, 0)
+	if err != nil {
+		t.Fatal(err)
+	}
+	t.Logf("deleter opened with limit %d: lastID=%d empty=%v (A.max=%d)", limit, d.LastID(), d.Empty(), aMax)
+	perr := d.Pop(aMax)
+	t.Logf("pop(A.max=%d) -> %v", aMax, perr)
+	b := db.NewBatch()
+	d.Finish(b)
+	b.Write()
+	_, rerr := pathdb.VerifC19NewIndexReader(db, addr, 0)
+	t.Logf("newIndexReader after finish -> %v", rerr)
+	_, werr := pathdb.VerifC19NewIndexWriter(db, addr, math.MaxUint64, 0)
+	t.Logf("newIndexWriter after finish -> %v", werr)
+	if perr != nil || rerr != nil {
+		t.Errorf("deleter recovery corner: pop err=%v, index unreadable afterwards=%v", perr, rerr)
+	}
+}
+
+// Finding 3: a trimming writer session with no appends leaves the trimmed ids stored
+func TestTrimWithoutAppend(t *testing.T) {
+	db, all, aMax, _ := twoBlocks(t)
+	limit := aMax + 5
+	w, _ := pathdb.VerifC19NewIndexWriter(db, addr, limit, 0)
+	b := db.NewBatch()
+	w.Finish(b)
+	b.Write()
+	el, _ := dbElems(db)
+	t.Logf("limit %d, no appends: stored %d elements (before: %d), last=%d", limit, len(el), len(all), el[len(el)-1])
+	if el[len(el)-1] > limit {
+		t.Errorf("ids above the limit are still stored after the session")
+	}
 }
